@@ -468,6 +468,8 @@ impl ContinuityStore {
     }
 
     pub fn subscribe(&self) -> broadcast::Receiver<Event> {
+        #[cfg(feature = "verif")]
+        rip_kernel::verif::yield_point("continuity_subscribe");
         self.sender.subscribe()
     }
 
